@@ -9,15 +9,33 @@ _DEPS = ["harness/c12/lru_harness.hh", "harness/c12/alloc_balance.hh"]
 PROP = dict(
     level="exploration",
     stages=[
-        # LRUSet<int64>, LRUSet<string>, LRUMap<int64,int64>, LRUMap<string,string>: exhaustive short histories + rapidcheck
+        # LRUSet<int64|string|PathKey|shared_ptr>, LRUMap<int64,int64 | string,string | PathKey,string | shared_ptr,int64>:
+        # exhaustive short histories (int64 keys: full plan, PathKey keys: reduced plan) + rapidcheck
         dict(name="c12_lru", src="harness/c12_lru.cc", deps=_DEPS, env={"ASAN_OPTIONS": _ASAN},
              shards_quick=8, shards_thorough=16, timeout_quick=400, timeout_thorough=2400),
         # compile probes for LRUMap::insert(const K&, const V&) / at() const (a probe that does not compile is a
         # violation `compile/<member>`), then the same harness with those members in the operation alphabet
         dict(name="c12_gated", kind="pydriver", driver="oracle/c12_gated.py", env={"ASAN_OPTIONS": _ASAN},
              shards_quick=8, shards_thorough=16, timeout_quick=400, timeout_thorough=2400),
+        # the same harness compiled the way a release consumer compiles the header-only templates: -DNDEBUG -O2 (still with
+        # ASan+UBSan; the library objects are the shared ones). Subchecks *_nd: random histories on every key type + a
+        # reduced exhaustive plan.
+        dict(name="c12_ndebug", src="harness/c12_lru_ndebug.cc", deps=_DEPS + ["harness/c12_lru.cc"], flags=["-DNDEBUG", "-O2"],
+             env={"ASAN_OPTIONS": _ASAN}, shards_quick=8, shards_thorough=16, timeout_quick=400, timeout_thorough=2400),
     ],
-    rule=("A case is a whole operation history on two instances (A, B) of one container type; after every operation both "
+    rule=("Container types: LRUSet<K> for K = int64, std::string, PathKey, shared_ptr<const string> and LRUMap<int64,int64>, "
+          "LRUMap<string,string>, LRUMap<PathKey,string>, LRUMap<shared_ptr<const string>,int64>. PathKey = struct {std::string path; uint32 gen} "
+          "with operator== and a user-written noexcept std::hash over the path only (short paths in the small-string buffer, long ones "
+          "on the heap; keys differing only in gen collide): a key that owns a resource, whose moved-from state is another key, and whose "
+          "hash libstdc++ does not cache in the node (it recomputes it from the stored key on rehash / erase(iterator)), unlike std::string. "
+          "The shared_ptr key has identity equality and the standard library's own hash; its 200 key objects live in a table and must have "
+          "no other owner once the containers of a history are destroyed (clause key-copy-outlives-container). "
+          "Build configurations: stage c12_lru = assertions on (-O1); stage c12_ndebug = the same harness source compiled with -DNDEBUG -O2 "
+          "(subchecks *_nd), the configuration of a release consumer of these header-only templates - same oracle (neither verif.hh nor the "
+          "harness uses assert()), random histories on all eight container types (quick 12000 int / 6000 string, PathKey (map 4000) / 3000 shared_ptr "
+          "per type; plain build: 40000 int / 20000 string / 15000 set, 12000 map PathKey / 6000 shared_ptr) + a reduced exhaustive plan (int keys: complete to L=3 core / 2 extended, to 5 / 4 (map 3) without interior no-ops, "
+          "extreme-sizes to 2 / 3; PathKey keys: 3 / 2, 4 / 2); the gated stage adds LRUMap<PathKey,string> (random histories). "
+          "A case is a whole operation history on two instances (A, B) of one container type; after every operation both "
           "instances are compared with two std::list recency models (return value new/existing, size() = sum of sizes, count(), "
           "peek()/item_size()/at() values, a read-only walk of head/tail/prev/next/key against the model order) and at the end "
           "both are drained by evict_object(), which must replay the model order. Exhaustive: every history of length 1..L over "
@@ -25,7 +43,8 @@ PROP = dict(
           "extended alphabet adds size-0 inserts, touch with a new size, change_size, clear), complete up to L=4 (quick) / 5 "
           "(thorough) and up to L=6/7 minus the histories that hold a throwing no-op (absent-key touch/change_size/lookup, evict "
           "on empty) before their last operation, which are state-equivalent to a shorter enumerated history (counted under "
-          "`excluded`); plus every history of length 1..3 (thorough 4; 1..4/5 minus interior no-ops) over the 'extreme-sizes' alphabet (sizes "
+          "`excluded`) - that plan on the int64-keyed containers, a reduced one (complete to L=3 core / 2 extended, to 5 / 3 without interior "
+          "no-ops, extreme-sizes to 2 / 3; thorough 4 / 3, 6 / 4, 3 / 4) on the PathKey-keyed containers; on the int64-keyed ones plus every history of length 1..3 (thorough 4; 1..4/5 minus interior no-ops) over the 'extreme-sizes' alphabet (sizes "
           "1, 2, 2^63, 2^63+1, SIZE_MAX on new and existing keys through insert/emplace/change_size, touch with SSIZE_MAX, evict, clear). "
           "Random: rapidcheck histories of 1..400 operations over 1..8 (sometimes 40) keys, sizes {0,1,2,7}, "
           "new_size {-1,0,1,2,7}, operations on both instances and swaps between them; a quarter of the histories draw a fifth of their "
@@ -37,6 +56,11 @@ PROP = dict(
           "live keys, an operation moved an existing key to the front from a non-front position and a later erase or eviction "
           "succeeded. Distinct = distinct histories (hash of the operation words per container type)."),
     assumptions=["single-threaded use",
+                 "key types: hashable (std::hash specialisation, noexcept or not), equality comparable, copy- and move-constructible; the hash and "
+                 "operator== of a key do not change while it is stored; nothing is assumed about the state of a key object after it was passed "
+                 "to emplace(K&&)/insert(K&&) (it is not looked at again)",
+                 "build configurations checked: assertions on at -O1 and -DNDEBUG at -O2, both under ASan+UBSan with libstdc++; the library's "
+                 "compiled objects are the same in both (LRUSet/LRUMap are header-only)",
                  "sizes are arbitrary size_t values (ssize_t >= -1 for touch's new_size; what other negative values mean is not documented and "
                  "they are not generated); size() is compared with the model's sum in every state in which that sum is representable in "
                  "size_t, and is not compared in states where it is not (counted under the class 'states-with-unrepresentable-sum'); item sizes, "
@@ -50,12 +74,17 @@ PROP = dict(
     engine="rapidcheck + exhaustive enumerators",
     technique=("model-based stateful testing: exhaustive small-scope enumeration of operation histories + rapidcheck random "
                "histories against a std::list recency model, with structural link walk, ASan/UBSan and per-history heap-block "
-               "balance + LeakSanitizer; compile probes for never-instantiated members"),
+               "balance + LeakSanitizer; compile probes for never-instantiated members; the templates instantiated over four key types "
+               "(integer, std::string with cached hash, resource-owning struct with uncached user hash, shared_ptr) and compiled in two "
+               "configurations (assertions on / -DNDEBUG -O2)"),
     level_text=("Exploration: every history runs the real templates (ASan+UBSan build of the working tree) side by side with a "
                 "reference recency list; all histories up to the stated lengths over 3 keys are enumerated, longer ones over up to "
                 "40 keys are sampled. It finds any mis-linked pointer, stale tail, wrong size accounting, wrong recency rule, "
-                "use-after-free or leak that has a witness in those scopes; it is not a proof for arbitrary lengths or key types."),
+                "use-after-free or leak that has a witness in those scopes, for the four key types and the two build configurations "
+                "(assertions on, -DNDEBUG -O2) it instantiates; it is not a proof for arbitrary lengths, key types or compilers."),
     level_note=("Trusts the compiler, libstdc++ (std::list model, std::unordered_map under the containers), AddressSanitizer/LeakSanitizer "
                 "and the harness's reading of which operations refresh recency (LRUSet: insert/emplace/touch; LRUMap: insert, "
-                "emplace of a new key, at, touch, change_size(touch=true))."),
+                "emplace of a new key, at, touch, change_size(touch=true)). Whether libstdc++ caches a key's hash code in the node "
+                "(std::string: yes; PathKey/shared_ptr/int64: no) is an implementation detail the key-type choice leans on; with another "
+                "standard library the PathKey/shared_ptr instantiations are still valid checks but may exercise different paths."),
 )
